@@ -39,6 +39,7 @@ STRENGTHENED = {
     "C01_w8": "nine or ten held messages and a request sent from inside the connected notification", "C09_w8": "init() with the process-wide packet counter at any value",
     "C10_w8": "one frame naming the same zone / AC twice", "C11_w8": "AT4 zones that differ in turbo support, asked in either order",
     "C12_w8": "a zone the client does not know at any place in a multi-entity frame", "C14_w8": "the new connection dies at the refresh's own write (C07 caught it as it stood)",
+    "C07_w8": "fixed story with free instants, a slow transport close and no request from the connected notification (also exposed KF-C07-4)",
     "C17_w8": "AT4 frame with a damaged (smaller) length whose payload contains the image of a valid frame",
     "C01_10": "a write stalled for up to 25 s without a fault", "C02_10": "writes failing together across the wrap of the packet counter",
     "C04_10": "AT5 mode change with a reported set-point outside the other mode's range", "C06_10": "damaged frame followed by the start of another in the same segment (also: SymBytes.__delitem__, connection cap against reset storms)",
